@@ -130,3 +130,58 @@ package fs
 // For callers, a glob is a function of the file system (fixed within one decision) and its arguments.
 //@ assume func Glob
 //@   pure
+
+// ---------------------------------------------------------------------------------------------
+// Copying and linking output trees (C34)
+//
+// Per entry of the walk: a directory is created at the corresponding destination path, a symlink is
+// recreated with the same (relative) target, any other file is copied or linked to the corresponding
+// path — and a nil result means exactly the matching action was taken. Every mutating call names the
+// destination, never the source; nothing is ever chmod'ed, removed or renamed (a hard link shares its inode
+// with the source, so changing it would change the source tree).
+// (the getters of the Mode interface are functions of the value asked)
+//@ assume func (Mode).IsDir
+//@   pure
+//@ assume func (Mode).IsSymlink
+//@   pure
+//@ assume func (Mode).IsRegular
+//@   pure
+//@ assume func (Mode).ModeType
+//@   pure
+//@ func RecursiveCopyOrLinkFile.lit#1
+//@   opt nopanic=off
+//@   requires hasPrefix(name, from)
+//@   callsite os.MkdirAll directory_at_the_same_relative_path [C34]: fileMode.IsDir() && arg_path == filepath.Join(to, name[len(from):])
+//@   callsite copySymlink symlink_at_the_same_relative_path [C34]: !fileMode.IsDir() && fileMode.IsSymlink() && \
+//@      arg_name == name && arg_dest == filepath.Join(to, name[len(from):])
+//@   callsite CopyOrLinkFile file_at_the_same_relative_path [C34]: !fileMode.IsDir() && !fileMode.IsSymlink() && \
+//@      arg_from == name && arg_to == filepath.Join(to, name[len(from):]) && arg_toMode == mode && arg_link == link && arg_fallback == fallback
+//@   ensures every_entry_is_reproduced [C34]: result == nil ==> \
+//@      (fileMode.IsDir() ==> called("os.MkdirAll")) && \
+//@      (!fileMode.IsDir() && fileMode.IsSymlink() ==> called("copySymlink")) && \
+//@      (!fileMode.IsDir() && !fileMode.IsSymlink() ==> called("CopyOrLinkFile"))
+//
+//@ func RecursiveCopyOrLinkFile
+//@   opt nopanic=off
+//@   callsite CopyOrLinkFile single_file [C34]: arg_from == from && arg_to == to && arg_toMode == mode && arg_link == link && arg_fallback == fallback
+//@   callsite WalkMode whole_tree [C34]: arg_rootPath == from
+//
+//@ func copySymlink
+//@   opt nopanic=off
+//@   callsite os.Readlink reads_the_source_link [C34]: arg_name == name
+//@   callsite os.Symlink same_target_at_the_destination [C34]: called("os.Readlink") && arg_oldname == resolvedPath && arg_newname == dest
+//
+//@ func CopyOrLinkFile
+//@   opt nopanic=off
+//@   callsite os.Symlink same_target_at_the_destination [C34]: called("os.Readlink") && arg_oldname == dest && arg_newname == to
+//@   callsite os.Readlink reads_the_source_link [C34]: arg_name == from
+//@   callsite os.Link source_is_only_read [C34]: link && arg_oldname == from && arg_newname == to
+//@   callsite CopyFile source_is_only_read [C34]: arg_from == from && arg_to == to && (!link ==> arg_mode == toMode)
+//@   callsite os.Chmod a_link_shares_the_sources_inode [C34]: false
+//@   callsite os.Chown a_link_shares_the_sources_inode [C34]: false
+//@   callsite os.Chtimes a_link_shares_the_sources_inode [C34]: false
+//@   callsite os.Remove source_is_only_read [C34]: false
+//@   callsite os.RemoveAll source_is_only_read [C34]: false
+//@   callsite os.Rename source_is_only_read [C34]: false
+//@   callsite os.Truncate source_is_only_read [C34]: false
+//@   ensures linked_or_copied [C34]: result == nil ==> called("os.Symlink") || called("os.Link") || called("CopyFile")
